@@ -28,6 +28,9 @@ pub struct Case {
     pub quiet: bool,
     pub no_unicode: bool,
     pub load_paths: Vec<String>,
+    /// contents of an output file that exists before the tool runs (a rebuild)
+    #[serde(default)]
+    pub stale_output: Option<String>,
 }
 
 pub fn cli_path() -> PathBuf {
@@ -38,6 +41,7 @@ pub fn cli_path() -> PathBuf {
 struct Flags {
     stdin: bool,
     out_file: bool,
+    stale: Option<String>,
     compressed: bool,
     no_charset: bool,
     quiet: bool,
@@ -45,7 +49,13 @@ struct Flags {
 }
 
 fn flags() -> impl Strategy<Value = Flags> {
-    (any::<bool>(), any::<bool>(), any::<bool>(), any::<bool>(), any::<bool>(), any::<bool>()).prop_map(|(stdin, out_file, compressed, no_charset, quiet, no_unicode)| Flags {
+    (any::<bool>(), any::<bool>(), any::<bool>(), any::<bool>(), any::<bool>(), any::<bool>(), any::<u8>()).prop_map(|(stdin, out_file, compressed, no_charset, quiet, no_unicode, stale)| Flags {
+        stale: match stale % 4 {
+            0 => None,
+            1 => Some(String::new()),
+            2 => Some("/* old */\n".to_string()),
+            _ => Some(format!("/* stale output of an earlier, much larger build */\n{}", "old { rule: value; }\n".repeat(200))),
+        },
         stdin,
         // OUTPUT is the second positional argument: it cannot be combined with --stdin
         out_file: out_file && !stdin,
@@ -67,6 +77,7 @@ fn mk(class: &str, files: Vec<(String, String)>, f: Flags, load_paths: Vec<Strin
         quiet: f.quiet,
         no_unicode: f.no_unicode,
         load_paths,
+        stale_output: if f.out_file && !f.stdin { f.stale } else { None },
     }
 }
 
@@ -134,7 +145,7 @@ impl Prop for C20 {
         "C20"
     }
     fn rule(&self) -> String {
-        "inputs: corpus entries (valid and failing), corpus mutations, generated value-heavy sheets, generated logging programs (@debug/@warn/@error, imported files) and two-file projects loaded through --load-path, x every subset of {--style compressed, --no-charset, --quiet, --no-unicode} x {file argument, --stdin} x {stdout, output file}, run through the built binary in a scratch working directory. Oracle: the same input compiled in-process with the equivalent Options over the same files: Ok(css) => exit 0, stdout (or the output file, stdout empty) byte-equal to css, every Logger message on stderr in order, stderr empty when nothing was logged or --quiet; Err(e) => exit != 0, stdout empty, output file empty or absent, stderr contains the rendered error. Non-trivial = >= 2 non-default flags, or a failing input, or warnings present, or an output file; distinct by (files, flags).".into()
+        "inputs: corpus entries (valid and failing), corpus mutations, generated value-heavy sheets, generated logging programs (@debug/@warn/@error, imported files) and projects loaded through --load-path (incl. the same module in 2-3 load paths given in arbitrary order), x every subset of {--style compressed, --no-charset, --quiet, --no-unicode} x {file argument, --stdin} x {stdout, output file (fresh, or already existing with shorter/longer stale content)}, run through the built binary in a scratch working directory. Oracle: the same input compiled in-process with the equivalent Options over the same files: Ok(css) => exit 0, stdout (or the output file, stdout empty) byte-equal to css, every Logger message on stderr in order, stderr empty when nothing was logged or --quiet; Err(e) => exit != 0, stdout empty, output file empty or absent, stderr contains the rendered error. Non-trivial = >= 2 non-default flags, or a failing input, or warnings present, or an output file; distinct by (files, flags).".into()
     }
     fn assumptions(&self) -> Vec<String> {
         vec![
@@ -179,9 +190,25 @@ impl Prop for C20 {
             }
             mk("load-path-project", files, f, lp)
         });
+        // the same module in several load paths: the first path given on the command line wins
+        let precedence = (proptest::collection::vec(any::<u16>(), 2..4), flags()).prop_map(|(order, f)| {
+            let dirs = ["vendor", "app", "lib", "zz", "a-first"];
+            let mut lp: Vec<String> = vec![];
+            for o in order {
+                let d = dirs[idx(o, dirs.len())].to_string();
+                if !lp.contains(&d) {
+                    lp.push(d);
+                }
+            }
+            let mut files = vec![("main.scss".to_string(), "@use \"theme\";\na {\n  from: theme.$origin;\n}\n".to_string())];
+            for d in &lp {
+                files.push((format!("{}/_theme.scss", d), format!("$origin: {};\n", d)));
+            }
+            mk("load-path-precedence", files, f, lp)
+        });
         let missing = flags().prop_map(|f| mk("missing-input-file", vec![("other.scss".into(), "a{b:c}".into())], Flags { stdin: false, ..f }, vec![]));
-        let s = prop_oneof![4 => from_corpus, 3 => mutated, 3 => sheets, 4 => logs, 2 => project, 1 => missing].boxed();
-        Some((s, tier.pick(1_500, 40_000)))
+        let s = prop_oneof![4 => from_corpus, 3 => mutated, 3 => sheets, 4 => logs, 2 => project, 2 => precedence, 1 => missing].boxed();
+        Some((s, tier.pick(3_000, 40_000)))
     }
     fn check(&self, case: &Case, cx: &mut Ctx) -> Verdict {
         if !cli_path().exists() {
@@ -221,6 +248,10 @@ impl Prop for C20 {
             }
         }
         let _ = std::fs::create_dir_all(&dir);
+        if let Some(old) = &case.stale_output {
+            let _ = std::fs::write(dir.join("out.css"), old);
+            cx.class("output-file-exists-before");
+        }
         let mut args: Vec<String> = vec![];
         if case.compressed {
             args.push("--style".into());
